@@ -12,7 +12,7 @@ EXTENDS RcMon, Commands, Json
 CONSTANTS TraceFile, Limit
 Trace == ndJsonDeserialize(TraceFile)
 VARIABLES l, mon, cx
-Init == l = 1 /\ mon = MonInit /\ cx = [exp |-> <<>>, big |-> {}, viol |-> {}]
+Init == l = 1 /\ mon = MonInit /\ cx = [exp |-> <<>>, name |-> <<>>, big |-> {}, viol |-> {}]
 
 AllReasons == {"unknown command", "wrong number of arguments", "req msg length too large"}
 KindFor(name, reasons) ==
@@ -20,9 +20,11 @@ KindFor(name, reasons) ==
   ELSE IF name \in LocalNames THEN name ELSE "fwd1"
 
 Step(x, m, e) ==
-  CASE e.ev = "begin" -> [exp |-> <<>>, big |-> {}, viol |-> {}]
+  CASE e.ev = "begin" -> [exp |-> <<>>, name |-> <<>>, big |-> {}, viol |-> {}]
     [] e.ev = "send" /\ e.k = "cmd" ->
-         [x EXCEPT !.exp = Put(@, <<e.c, e.i>>, Reasons(e.txt, e.num, e.size, Limit))]
+         [x EXCEPT !.exp = Put(@, <<e.c, e.i>>, Reasons(e.txt, e.num, e.size, Limit)), !.name = Put(@, <<e.c, e.i>>, e.txt)]
+    [] e.ev = "send" /\ e.k \in {"auth", "authbad", "ping"} ->
+         [x EXCEPT !.exp = Put(@, <<e.c, e.i>>, {}), !.name = Put(@, <<e.c, e.i>>, IF e.k = "ping" THEN "ping" ELSE "auth")]
     [] e.ev = "recv" /\ <<e.c, e.i>> \in DOMAIN x.exp /\ x.exp[<<e.c, e.i>>] # {} ->
          [x EXCEPT !.viol = @ \cup {<<"C17", e.c, e.i, "rejected-request-forwarded">>}]
     [] e.ev = "answer" /\ e.fid # "" /\ e.size > Limit -> [x EXCEPT !.big = @ \cup {<<e.c, e.i>>}]
@@ -38,6 +40,11 @@ Step(x, m, e) ==
                ELSE [x EXCEPT !.viol = @ \cup {<<"C17", e.c, i, "wrong-or-missing-rejection">>}])
             ELSE IF e.rep.t = "perr" /\ e.rep.txt \in AllReasons \cup {"rsp msg length too large"} THEN
               [x EXCEPT !.viol = @ \cup {<<"C17", e.c, i, "servable-request-rejected">>}]
+            \* PING, QUIT and AUTH are answered by the proxy itself: no state of the slot table or of the backends excuses
+            \* an error other than AUTH's own two
+            ELSE IF x.name[id] \in LocalNames /\ e.rep.t = "perr"
+                    /\ e.rep.txt \notin {"invalid password", "Client sent AUTH, but no password is set"} THEN
+              [x EXCEPT !.viol = @ \cup {<<"C17", e.c, i, "locally-answered-request-refused">>}]
             ELSE x
     [] OTHER -> x
 
